@@ -223,7 +223,7 @@ def run(ctx, prog, res):
                     t = flow.shape_on(new, op, path, depth=6)
                     if t == "discr(p2)":
                         conds.append(("tz", taken, excl, {1: "tz", 0: "notz"}))
-                    elif re.fullmatch(r"discr\(Option::transpose\(Option::map\(p4, closure\[\]\)\)@Continue\.0\)", t):
+                    elif re.fullmatch(r"discr\(Option::transpose\(Option::map\(p4, closure(?:\[\]|\(\"[^\"]*\"\))\)\)@Continue\.0\)", t):
                         conds.append(("coords", taken, excl, {1: "coords", 0: "none"}))
                     elif re.fullmatch(r"Option::unwrap_or\(p6, 1\)", t):
                         conds.append(("auto", taken, excl, {1: "auto", 0: "noauto"}))
